@@ -44,6 +44,36 @@ def decode_fps(r, n):
     return out
 
 
+def witness_no_delete(R):
+    """c18_no_delete_without_base draws: a, b (optional), then z, s (plain fingerprints)"""
+    def w(r):
+        c = kanirun.Cursor(r.playback or [])
+
+        def opt():
+            if c.boolean():
+                h = bytes(c.bytes_(32)).hex()
+                return [h, 0 if c.boolean() else 1]
+            return None
+
+        def plain():
+            h = bytes(c.bytes_(32)).hex()
+            return [h, 0 if c.boolean() else 1]
+        a, b = opt(), opt()
+        z, s = plain(), plain()
+        for (x, y, base) in ((a, b, None), (s, None, z), (None, s, z)):
+            case = {"fn": "reconcile_path", "a": x, "b": y, "base": base}
+            want = ref_table(tuple(x) if x else None, tuple(y) if y else None, tuple(base) if base else None)
+            res = native.run_both(case)
+            bad = {p: v for p, v in res.items() if v.get("result") != want}
+            if bad:
+                case["expected"] = want
+                case["observed"] = res
+                return {"confirmed": True, "replay_path": R.save_replay("C18/reconcile_path", case), "key": "C18/reconcile_path/%s" % want,
+                        "detail": "reconcile_path(%s): native %s, documented table %s" % (json.dumps(case)[:200], bad, want)}
+        return {"confirmed": False, "detail": "native reconcile_path agrees with the table on the decoded inputs"}
+    return w
+
+
 def witness_for(R, n, triples):
     def w(r):
         fps = decode_fps(r, n)
@@ -72,7 +102,7 @@ def run(R, tier, seed):
     specs = [
         dict(h="gen_reconcile::verif_c18::c18_equals_documented_table", bound=b, functions=fns, witness=witness_for(R, 3, [(0, 1, 2)])),
         dict(h="gen_reconcile::verif_c18::c18_mirror_symmetric", bound=b, functions=fns, witness=witness_for(R, 3, [(0, 1, 2), (1, 0, 2)]), covers_required=False),
-        dict(h="gen_reconcile::verif_c18::c18_no_delete_without_base", bound=b, functions=fns, witness=None, covers_required=False),
+        dict(h="gen_reconcile::verif_c18::c18_no_delete_without_base", bound=b, functions=fns, witness=witness_no_delete(R), covers_required=False),
         dict(h="gen_reconcile::verif_c18::c18_depends_only_on_equalities", bound=b + "; two independent triples with equal presence/equality pattern",
              functions=fns, witness=witness_for(R, 6, [(0, 1, 2), (3, 4, 5)]), covers_required=False),
     ]
